@@ -40,6 +40,7 @@ import Fcgi.Props.C07NoFuel2
 import Fcgi.Props.C07Echo3
 import Fcgi.Props.C07NoFuel3
 import Fcgi.Props.C07NoFuel4
+import Fcgi.Props.C07NoFuel5
 import Fcgi.Props.C08
 import Fcgi.Props.C08Inv
 import Fcgi.Props.C08Replies
@@ -64,6 +65,7 @@ import Fcgi.Props.C11Filter4Chain
 import Fcgi.Props.E2EUnbounded
 import Fcgi.Props.C11FilterAnysize
 import Fcgi.Props.C11NoFuel
+import Fcgi.Props.C11Unread
 import Fcgi.Props.C12
 import Fcgi.Props.C12Inv
 import Fcgi.Props.C12Wf
@@ -81,6 +83,7 @@ import Fcgi.Props.C12Unbounded
 import Fcgi.Props.C12Chain
 import Fcgi.Props.C12NoFuel
 import Fcgi.Props.C12Chain2
+import Fcgi.Props.C12Chain3
 import Fcgi.Props.C13
 import Fcgi.Props.C13Conn
 import Fcgi.Props.C14b
@@ -133,9 +136,9 @@ GONE from the core family (C07 Clauses 1–4, `Props/C07NoFuel.lean`: single req
 requests) and from the echo Responder (C07 Clauses 21, 23, 25, 26) and the Filter gate theorems (C09 Clauses 11–17).  It is also gone from C07 Clause 6 (`C07NoFuel2`), C11 Clause 5
 (`C11NoFuel`), C12 Clauses 1, 5, 9, 10 (`C12NoFuel`: Responder EOF / failure at any offset, write error, read error at
 any index) and C14 Clauses 1–2 (`C14NoFuel`).  It REMAINS, as an artefact of the proofs only (removable by the recipe of
-`Proofs/E2ENoFuel.lean`), in: C07 Clause 8 (`wcost |data| + 8 ≤ 1000`), 10–12 (`2·n + …`: the number of
-`fill_buf`/`consume` rounds) — Clauses 13–18 lost it in `C07NoFuel3` / `C07NoFuel4`; the follow-up requests
-`Sent.OKu` of C11 Clauses 1, 6, 9; C12 Clauses 2, 3 (Filter / Authorizer any-offset) and 12–15 (chain: `UReq.OKu` and, in 12–13, the
+`Proofs/E2ENoFuel.lean`), in: C07 Clauses 10 and 12 (`2·n + …`: the number of `fill_buf`/`consume` rounds; Clause 10 also `|content| ≤ n`) —
+Clauses 8 and 11 lost it in `C07NoFuel5`, Clauses 13–18 in `C07NoFuel3` / `C07NoFuel4`; the follow-up requests
+`Sent.OKu` of C11 Clauses 1, 6, 9; C12 Clauses 2, 3 (Filter / Authorizer any-offset) and 12–17 (chain: `UReq.OKu` and, in 12–13, the
 last request's `hhf`).
 `C11Clause7` is the `_anysize` table of
 `Props/C11FilterAnysize.lean` (no `|Stdin wire| ≤ 31000`).
@@ -1545,12 +1548,12 @@ end Fcgi.Headline
 6. `C07U.unread_request_e2e_nofuel` — handler reads nothing: served, the unread stream goes to the next
    request parser (no size bound)
 7. `C07U.unread_prefix_e2e_unbounded` — handler reads a strict prefix (no size bound)
-8. `C07U.authorizer_tail_e2e_unbounded` — Authorizer followed by more traffic
+8. `C07U.authorizer_tail_e2e_nofuel` — Authorizer followed by more traffic
 9. `C07U.unread_filter_e2e_unbounded` — a Filter left wholly unread
 10. `C07B.single_request_bufread_e2e_unbounded` — a handler that drains Stdin through `AsyncBufRead`
    (`fill_buf`/`consume`), no size bound
-11. `C07B.bufread_then_readall_e2e_unbounded` — `fill_buf`/`consume` followed by `read_to_end`, no size
-   bound
+11. `C07B.bufread_then_readall_e2e_nofuel` — `fill_buf`/`consume` followed by `read_to_end`: any number of
+   rounds, any output (no size bound, no cost hypothesis)
 12. `C07B.bufread_part_e2e_unbounded` — a handler that consumes only part of what `fill_buf` showed, no size
    bound
 13. `C07W.single_request_writers_e2e_nofuel` — TWO writers (Stdout, Stderr), ANY sequence of `write_all`s
@@ -1571,8 +1574,10 @@ end Fcgi.Headline
    the handler phase)
 21. `C07W.echo_responder_e2e` — the ECHO Responder — writes INTERLEAVED with reads (`read(1)`; `write_all`
    of that byte; …): one Stdout record per content byte, in order; restrictions: reads of 1 byte, Stdin noise
-   that owes no reply (`hquiet`); no fuel hypothesis
-22. `C07W.payloads_echo` — … and the concatenated Stdout payloads ARE the Stdin content
+   that owes no reply (`hquiet`); no fuel hypothesis; this clause states the LOG — that the reads return those
+   bytes is Clauses 25–26
+22. `C07W.payloads_echo` — … and the concatenated Stdout payloads ARE the Stdin content (true by
+   construction of the script; the reads are Clauses 25–26)
 23. `C07W.echo_responder_e2e_noise` — the echo Responder with ANY Stdin noise (no `hquiet`): the log behind
    the preamble replies is an INTERLEAVING (`Ilv`) of the replies owed for the noise and the handler output
    (one Stdout record per content byte, then the epilogue)
@@ -1780,7 +1785,7 @@ end
 section
 namespace Fcgi.C07U
 open Fcgi Fcgi.Req Fcgi.Str Fcgi.Async Fcgi.Run Fcgi.Spec Fcgi.E2E Fcgi.C07E
-/-- Authorizer followed by more traffic  (= `Fcgi.C07U.authorizer_tail_e2e_unbounded`, `Props/E2EUnbounded.lean`) -/
+/-- Authorizer followed by more traffic  (= `Fcgi.C07U.authorizer_tail_e2e_nofuel`, `Props/C07NoFuel5.lean`) -/
 def C07Clause8 : Prop :=
   ∀ {p : Preamble} {recs tail : List Rec} {b mc : Nat} {rd : ARead} {wr : Bool}
     {data : Bytes} {st : ExitStatus} {more : List (List HOp × Bool)} {t : Transport} {fuel : Nat}
@@ -1791,14 +1796,13 @@ def C07Clause8 : Prop :=
     (hnb : ∀ r ∈ tail, r.rtype.toNat ≠ RT.beginRequest)
     (hwd : wr = false → data = [])
     (hin : t.input = serAll recs ++ serAll tail) (hben : Ben t) (hev : hsCount t.events = 0)
-    (hfuel : t.rd.length + t.wr.length + 1 ≤ fuel)
-    (hhf : wcost data.length + 8 ≤ 1000),
+    (hfuel : t.rd.length + t.wr.length + 1 ≤ fuel),
     ∃ c' fin t₁ t₂ O₁ O₂, runTask fuel (connS b mc t ((aHandler rd wr data st, true) :: more)) 0 none = (c', fin) ∧
       AuthTailOutcome p recs tail t₁ t₂ O₁ O₂ rd b mc data st more t c' fin
 
 theorem C07Clause8_holds : C07Clause8 := by
   unfold C07Clause8
-  exact @authorizer_tail_e2e_unbounded
+  exact @authorizer_tail_e2e_nofuel
 
 end Fcgi.C07U
 end
@@ -1859,7 +1863,7 @@ end
 section
 namespace Fcgi.C07B
 open Fcgi Fcgi.Req Fcgi.Str Fcgi.Async Fcgi.Run Fcgi.Spec Fcgi.E2E Fcgi.C07E Fcgi.C07U
-/-- `fill_buf`/`consume` followed by `read_to_end`, no size bound  (= `Fcgi.C07B.bufread_then_readall_e2e_unbounded`, `Props/C07Unbounded.lean`) -/
+/-- `fill_buf`/`consume` followed by `read_to_end`: any number of rounds, any output (no size bound, no cost hypothesis)  (= `Fcgi.C07B.bufread_then_readall_e2e_nofuel`, `Props/C07NoFuel5.lean`) -/
 def C07Clause11 : Prop :=
   ∀ {p : Preamble} {recs : List Rec} {content : Bytes} {srecs : List Rec}
     {b mc n k : Nat} {data : Bytes} {st : ExitStatus} {more : List (List HOp × Bool)} {t : Transport} {fuel : Nat}
@@ -1868,8 +1872,7 @@ def C07Clause11 : Prop :=
     (hnoise : NoiseFits (alignedBufsize b) recs)
     (hs : StreamRecs p.id 5 content srecs) (hsn : NoiseFits (alignedBufsize b) srecs)
     (hin : t.input = serAll recs ++ serAll srecs) (hben : Ben t) (hev : hsCount t.events = 0)
-    (hfuel : t.rd.length + t.wr.length + 1 ≤ fuel)
-    (hhf : 2 * n + wcost data.length + 20 ≤ 1000),
+    (hfuel : t.rd.length + t.wr.length + 1 ≤ fuel),
     ∃ c' fin O₁ O₂ shown acc pad res,
       runTask fuel (connS b mc t ((bscript2 n k data st, true) :: more)) 0 none = (c', fin) ∧
       O₁ ++ O₂ = owedStream p.id 5 mc srecs ∧
@@ -1877,7 +1880,7 @@ def C07Clause11 : Prop :=
 
 theorem C07Clause11_holds : C07Clause11 := by
   unfold C07Clause11
-  exact @bufread_then_readall_e2e_unbounded
+  exact @bufread_then_readall_e2e_nofuel
 
 end Fcgi.C07B
 end
@@ -3347,6 +3350,10 @@ end Fcgi.Headline
    `close` tolerates the aborted state
 11. `C11.abort_maps_to_connection_aborted` — the error KIND: the parser's abort signal reaches the handler
    as ConnectionAborted
+12. `C11U.abort_unread_e2e` — END TO END, a Responder (KEEP_CONN) whose handler does NOT read, aborted: one
+   handler start, the handler undisturbed, ONE EndRequest carrying the HANDLER's status; the abort record is
+   swallowed by the next `parse_request` (no second EndRequest); the connection is reused
+13. `C11U.abort_unread_own_e2e` — … with only own Stdin records in front of the abort: nothing else is owed
 
 **Modelling assumptions (obligations.json).**
 * end-to-end (Props/C11E2E, benign transports = arbitrary splitting/Pendings, no errors):
@@ -3361,8 +3368,9 @@ end Fcgi.Headline
   keeps th…
 
 **Not proved as theorems — carried by the differential run + oracle, or trusted.**
-* a Responder that does not read / reads through `fill_buf` / is past end-of-stream when the abort arrives:
-  poll level only (Clause 10); 'at once' as a timing statement is not stated (the log position is)
+* a Responder that does not read, aborted: END TO END in Clauses 12–13 (`Props/C11Unread.lean`, KEEP_CONN);
+  still poll level only (Clause 10): a `fill_buf` handler that gets ConnectionAborted end to end; the non-
+  reading handler WITHOUT keep-conn; 'at once' as a timing statement is not stated (the log position is)
 * other handlers, faulty transports and the interplay with management traffic are enumerated by the
   differential run
 
@@ -3687,6 +3695,61 @@ theorem C11Clause11_holds : C11Clause11 := by
 end Fcgi.C11
 end
 
+section
+namespace Fcgi.C11U
+open Fcgi Fcgi.Req Fcgi.Str Fcgi.Async Fcgi.Run Fcgi.Spec Fcgi.E2E Fcgi.C07E Fcgi.C07U
+/-- END TO END, a Responder (KEEP_CONN) whose handler does NOT read, aborted: one handler start, the handler undisturbed, ONE EndRequest carrying the HANDLER's status; the abort record is swallowed by the next `parse_request` (no second EndRequest); the connection is reused  (= `Fcgi.C11U.abort_unread_e2e`, `Props/C11Unread.lean`) -/
+def C11Clause12 : Prop :=
+  ∀ {p : Preamble} {recs : List Rec} {body : List Rec} {a : Rec}
+    {b mc : Nat} {data : Bytes} {st : ExitStatus} {hs : List HOp} {more : List (List HOp × Bool)}
+    {t : Transport} {fuel : Nat}
+    (hnr : NoRead hs data st)
+    (hwf : WellFormedPreamble p recs) (hrole : p.role = 1) (hk : p.flags.toNat % 2 = 1)
+    (hpairs : ∀ q ∈ p.pairs, (NV.enc q).length ≤ alignedBufsize b)
+    (hnoise : NoiseFits (alignedBufsize b) recs)
+    (hbody : ∀ r ∈ body, IdleNoise r) (hbn : NoiseFits (alignedBufsize b) body)
+    (ha : a.rtype = 2) (haid : a.id = p.id) (hawf : a.WF)
+    (hin : t.input = serAll recs ++ serAll (body ++ [a])) (hben : Ben t) (hev : hsCount t.events = 0)
+    (hfuel : t.rd.length + t.wr.length + 1 ≤ fuel),
+    ∃ c' fin, runTask fuel (connS b mc t ((hs, true) :: more)) 0 none = (c', fin) ∧
+      UnreadOutcome p (body ++ [a]) b mc
+        (t.wlog ++ (owedPreamble p mc recs ++ streamRecords 6 p.id data ++ epilogue p.id st ++ idleOwed mc body))
+        more t c' fin
+
+theorem C11Clause12_holds : C11Clause12 := by
+  unfold C11Clause12
+  exact @abort_unread_e2e
+
+end Fcgi.C11U
+end
+
+section
+namespace Fcgi.C11U
+open Fcgi Fcgi.Req Fcgi.Str Fcgi.Async Fcgi.Run Fcgi.Spec Fcgi.E2E Fcgi.C07E Fcgi.C07U
+/-- … with only own Stdin records in front of the abort: nothing else is owed  (= `Fcgi.C11U.abort_unread_own_e2e`, `Props/C11Unread.lean`) -/
+def C11Clause13 : Prop :=
+  ∀ {p : Preamble} {recs : List Rec} {body : List Rec} {a : Rec}
+    {b mc : Nat} {data : Bytes} {st : ExitStatus} {hs : List HOp} {more : List (List HOp × Bool)}
+    {t : Transport} {fuel : Nat}
+    (hnr : NoRead hs data st)
+    (hwf : WellFormedPreamble p recs) (hrole : p.role = 1) (hk : p.flags.toNat % 2 = 1)
+    (hpairs : ∀ q ∈ p.pairs, (NV.enc q).length ≤ alignedBufsize b)
+    (hnoise : NoiseFits (alignedBufsize b) recs)
+    (hbody : ∀ r ∈ body, r.rtype = 5 ∧ r.WF)
+    (ha : a.rtype = 2) (haid : a.id = p.id) (hawf : a.WF)
+    (hin : t.input = serAll recs ++ serAll (body ++ [a])) (hben : Ben t) (hev : hsCount t.events = 0)
+    (hfuel : t.rd.length + t.wr.length + 1 ≤ fuel),
+    ∃ c' fin, runTask fuel (connS b mc t ((hs, true) :: more)) 0 none = (c', fin) ∧
+      UnreadOutcome p (body ++ [a]) b mc
+        (t.wlog ++ (owedPreamble p mc recs ++ streamRecords 6 p.id data ++ epilogue p.id st)) more t c' fin
+
+theorem C11Clause13_holds : C11Clause13 := by
+  unfold C11Clause13
+  exact @abort_unread_own_e2e
+
+end Fcgi.C11U
+end
+
 namespace Fcgi.Headline
 /-- **C11** — see the section comment above for the clause-by-clause reading. -/
 theorem C11_headline :
@@ -3700,8 +3763,10 @@ theorem C11_headline :
     Fcgi.C11E.C11Clause8 ∧
     Fcgi.C11E.C11Clause9 ∧
     Fcgi.C11.C11Clause10 ∧
-    Fcgi.C11.C11Clause11 :=
-  ⟨Fcgi.C11E.C11Clause1_holds, Fcgi.C11E.C11Clause2_holds, Fcgi.C11E.C11Clause3_holds, Fcgi.C11E.C11Clause4_holds, Fcgi.C11E.C11Clause5_holds, Fcgi.C11E.C11Clause6_holds, Fcgi.C11F.C11Clause7_holds, Fcgi.C11E.C11Clause8_holds, Fcgi.C11E.C11Clause9_holds, Fcgi.C11.C11Clause10_holds, Fcgi.C11.C11Clause11_holds⟩
+    Fcgi.C11.C11Clause11 ∧
+    Fcgi.C11U.C11Clause12 ∧
+    Fcgi.C11U.C11Clause13 :=
+  ⟨Fcgi.C11E.C11Clause1_holds, Fcgi.C11E.C11Clause2_holds, Fcgi.C11E.C11Clause3_holds, Fcgi.C11E.C11Clause4_holds, Fcgi.C11E.C11Clause5_holds, Fcgi.C11E.C11Clause6_holds, Fcgi.C11F.C11Clause7_holds, Fcgi.C11E.C11Clause8_holds, Fcgi.C11E.C11Clause9_holds, Fcgi.C11.C11Clause10_holds, Fcgi.C11.C11Clause11_holds, Fcgi.C11U.C11Clause12_holds, Fcgi.C11U.C11Clause13_holds⟩
 end Fcgi.Headline
 
 
@@ -3760,6 +3825,11 @@ end Fcgi.Headline
    or RET, log = k segments ++ byte prefix of the last answer, nothing written after the failing call; GAP: the
    fault is inserted at the hand-over (the prefix is run on the benign script)
 15. `C12E.read_error_in_last_request_at_index_e2e` — … the same for the i-th READ answer of the last request
+16. `C12E.write_error_in_last_request_e2e_whole` — the same with the failing write answer IN THE SCRIPT FROM
+   THE START (one closed-loop run on the faulty transport); restriction `hrem`: the benign prefix leaves at
+   least one answer of `pre`, i.e. the fault is not the very first write answer of the last request
+17. `C12E.read_error_in_last_request_at_index_e2e_whole` — … and for an erroring READ answer present from
+   the start (same restriction)
 
 **Modelling assumptions (obligations.json).**
 * handlerPoll fuel is proved sufficient for scripts without read-to-end loops (a harness-script bound, not a
@@ -3778,12 +3848,15 @@ end Fcgi.Headline
   earlier requests `UReq.OKu`, the last of them leaving nothing unread, cut strictly inside the wire);
   faults addressed by ANSWER index in the last request (a failing write / an erroring read at the i-th write
   / read call of the last request): Clauses 14–15 (`Props/C12Chain2.lean`; `runTask_suf`/`runTask_rl`: the
-  scripts left after a run are suffixes of the original ones) — with the stated GAP that the fault is
-  inserted at the hand-over: the prefix is run on the benign script, that it runs the same with the bad
-  answer already in the script is not proved; STILL OPEN on connections with k > 1 requests: that gap,
-  faults in a request that is not the last; read errors during `close()` (poll level: `C12E2E8`); these are
-  carried by the differential run (`corpus/C12_e2e_chain.txt` included); termination of the real task is
-  observed by the wake-accurate executor
+  scripts left after a run are suffixes of the original ones) — in Clauses 14–15 the fault is inserted at
+  the hand-over (the prefix is run on the benign script); Clauses 16–17 (`Props/C12Chain3.lean`,
+  `E2E.runTask_app`: a run that ends with answers left does not depend on what is appended to the script)
+  have the bad answer in the script FROM THE START, under `hrem` (the benign prefix leaves at least one
+  answer of `pre`: the fault is not the very first write / read answer of the last request — that case stays
+  with Clauses 14–15); STILL OPEN on connections with k > 1 requests: that boundary case in one run, faults
+  in a request that is not the last; read errors during `close()` (poll level: `C12E2E8`); these are carried
+  by the differential run (`corpus/C12_e2e_chain.txt` included); termination of the real task is observed by
+  the wake-accurate executor
 
 -/
 
@@ -4242,6 +4315,77 @@ theorem C12Clause15_holds : C12Clause15 := by
 end Fcgi.C12E
 end
 
+section
+namespace Fcgi.C12E
+open Fcgi Fcgi.Req Fcgi.Str Fcgi.Async Fcgi.Run Fcgi.Spec Fcgi.E2E Fcgi.C07E Fcgi.C07U Fcgi.C12Inv Fcgi.Indep3 Fcgi.EofErr
+/-- the same with the failing write answer IN THE SCRIPT FROM THE START (one closed-loop run on the faulty transport); restriction `hrem`: the benign prefix leaves at least one answer of `pre`, i.e. the fault is not the very first write answer of the last request  (= `Fcgi.C12E.write_error_in_last_request_e2e_whole`, `Props/C12Chain3.lean`) -/
+def C12Clause16 : Prop :=
+  ∀ {b mc : Nat} (x : UReq) (xs : List UReq) (y : UReq) {t : Transport}
+    {fuel : Nat} (pre post : List WrAns) (bad : WrAns) (hbad : bad = .err ∨ bad = .zero)
+    (hwr : t.wr = pre ++ bad :: post)
+    (hok : ∀ z ∈ x :: xs, z.OKu b) (hoky : y.OKu b) (hleft : ((x :: xs).getLast (by simp)).left = [])
+    (hin : t.input = x.wire) (hben : Ben { t with wr := pre }) (hem : t.endMode = .pend) (hev : hsCount t.events = 0)
+    (hfuel : t.rd.length + pre.length + 1 ≤ fuel),
+    ∃ c₁ A n,
+      -- the benign prefix (on the script truncated in front of the failing answer): `n` answers consumed
+      closedLoop fuel (xs.map UReq.wire) (connS b mc { t with wr := pre } ((x :: xs).map UReq.handler ++ [y.handler])) 0 =
+        (c₁, "STALL") ∧
+      SegsAll mc (x :: xs) A ∧ c₁.env.tr.wr = pre.drop n ∧ n + c₁.env.tr.wr.length = pre.length ∧
+      -- if it leaves at least one answer: the failing answer is answer `|pre| - n ≥ 1` of the last request's own output
+      (c₁.env.tr.wr ≠ [] →
+        ∃ c' fin Ay,
+          closedLoop fuel (xs.map UReq.wire ++ [y.wire]) (connS b mc t ((x :: xs).map UReq.handler ++ [y.handler])) 0 =
+            (c', fin) ∧
+          y.Seg mc Ay ∧
+          ((fin = "STALL" ∧ c'.env.tr.wlog = t.wlog ++ A ++ Ay ∧ hsCount c'.env.tr.events = (x :: xs).length + 1 ∧
+              ∃ rest, c'.env.tr.wr = rest ++ bad :: post) ∨
+           (fin = "RET" ∧ c'.phase = .finished ∧
+            (∃ w, c'.env.tr.wlog = t.wlog ++ A ++ w ∧ w <+: Ay) ∧
+            (x :: xs).length ≤ hsCount c'.env.tr.events ∧ hsCount c'.env.tr.events ≤ (x :: xs).length + 1 ∧
+            (∃ e inH, WrErrOf bad e ∧ (inH = true → ∃ evs, c'.env.tr.events = evs ++ [handlerErrEv e])) ∧
+            (∃ t0 t1 t2, Clean t0 t1 ∧ FailCall t1 t2 ∧ WSame t2 c'.env.tr ∧ c'.env.tr.wlog = t1.wlog))))
+
+theorem C12Clause16_holds : C12Clause16 := by
+  unfold C12Clause16
+  exact @write_error_in_last_request_e2e_whole
+
+end Fcgi.C12E
+end
+
+section
+namespace Fcgi.C12E
+open Fcgi Fcgi.Req Fcgi.Str Fcgi.Async Fcgi.Run Fcgi.Spec Fcgi.E2E Fcgi.C07E Fcgi.C07U Fcgi.C12Inv Fcgi.Indep3 Fcgi.EofErr
+/-- … and for an erroring READ answer present from the start (same restriction)  (= `Fcgi.C12E.read_error_in_last_request_at_index_e2e_whole`, `Props/C12Chain3.lean`) -/
+def C12Clause17 : Prop :=
+  ∀ {b mc : Nat} (x : UReq) (xs : List UReq) (y : UReq) {t : Transport}
+    {fuel : Nat} (pre post : List RdAns) (hrd : t.rd = pre ++ .err :: post)
+    (hok : ∀ z ∈ x :: xs, z.OKu b) (hoky : y.OKu b) (hleft : ((x :: xs).getLast (by simp)).left = [])
+    (hin : t.input = x.wire) (hben : Ben { t with rd := pre }) (hem : t.endMode = .pend) (hev : hsCount t.events = 0)
+    (hfuel : pre.length + t.wr.length + 1 ≤ fuel),
+    ∃ c₁ A n,
+      closedLoop fuel (xs.map UReq.wire) (connS b mc { t with rd := pre } ((x :: xs).map UReq.handler ++ [y.handler])) 0 =
+        (c₁, "STALL") ∧
+      SegsAll mc (x :: xs) A ∧ c₁.env.tr.rd = pre.drop n ∧ n + c₁.env.tr.rd.length = pre.length ∧
+      (c₁.env.tr.rd ≠ [] →
+        ∃ c' fin Ay,
+          closedLoop fuel (xs.map UReq.wire ++ [y.wire]) (connS b mc t ((x :: xs).map UReq.handler ++ [y.handler])) 0 =
+            (c', fin) ∧
+          y.Seg mc Ay ∧
+          ((fin = "STALL" ∧ c'.env.tr.wlog = t.wlog ++ A ++ Ay ∧ hsCount c'.env.tr.events = (x :: xs).length + 1 ∧
+              ∃ rest, c'.env.tr.rd = rest ++ .err :: post) ∨
+           (fin = "RET" ∧ c'.phase = .finished ∧
+            (∃ w, c'.env.tr.wlog = t.wlog ++ A ++ w ∧ w <+: Ay) ∧
+            (x :: xs).length ≤ hsCount c'.env.tr.events ∧ hsCount c'.env.tr.events ≤ (x :: xs).length + 1 ∧
+            (∃ e inH, (e = .connectionAborted ∨ e = .transportRead) ∧
+              (inH = true → ∃ evs, c'.env.tr.events = evs ++ [handlerErrEv e])))))
+
+theorem C12Clause17_holds : C12Clause17 := by
+  unfold C12Clause17
+  exact @read_error_in_last_request_at_index_e2e_whole
+
+end Fcgi.C12E
+end
+
 namespace Fcgi.Headline
 /-- **C12** — see the section comment above for the clause-by-clause reading. -/
 theorem C12_headline :
@@ -4259,8 +4403,10 @@ theorem C12_headline :
     Fcgi.C12E.C12Clause12 ∧
     Fcgi.C12E.C12Clause13 ∧
     Fcgi.C12E.C12Clause14 ∧
-    Fcgi.C12E.C12Clause15 :=
-  ⟨Fcgi.C12E.C12Clause1_holds, Fcgi.C12E.C12Clause2_holds, Fcgi.C12E.C12Clause3_holds, Fcgi.C12E.C12Clause4_holds, Fcgi.C12E.C12Clause5_holds, Fcgi.C12Inv.C12Clause6_holds, Fcgi.C12Inv.C12Clause7_holds, Fcgi.C12Fuel.C12Clause8_holds, Fcgi.C12E.C12Clause9_holds, Fcgi.C12E.C12Clause10_holds, Fcgi.C12E.C12Clause11_holds, Fcgi.C12E.C12Clause12_holds, Fcgi.C12E.C12Clause13_holds, Fcgi.C12E.C12Clause14_holds, Fcgi.C12E.C12Clause15_holds⟩
+    Fcgi.C12E.C12Clause15 ∧
+    Fcgi.C12E.C12Clause16 ∧
+    Fcgi.C12E.C12Clause17 :=
+  ⟨Fcgi.C12E.C12Clause1_holds, Fcgi.C12E.C12Clause2_holds, Fcgi.C12E.C12Clause3_holds, Fcgi.C12E.C12Clause4_holds, Fcgi.C12E.C12Clause5_holds, Fcgi.C12Inv.C12Clause6_holds, Fcgi.C12Inv.C12Clause7_holds, Fcgi.C12Fuel.C12Clause8_holds, Fcgi.C12E.C12Clause9_holds, Fcgi.C12E.C12Clause10_holds, Fcgi.C12E.C12Clause11_holds, Fcgi.C12E.C12Clause12_holds, Fcgi.C12E.C12Clause13_holds, Fcgi.C12E.C12Clause14_holds, Fcgi.C12E.C12Clause15_holds, Fcgi.C12E.C12Clause16_holds, Fcgi.C12E.C12Clause17_holds⟩
 end Fcgi.Headline
 
 
